@@ -231,6 +231,21 @@ pub fn contract_read_total(data: Vec<u8>, hint_sel: usize) {
     }
 }
 
+/// SAMPLED contract of Token::random (C03: tokens handed out are never a reserved value): a random source that yields `bad`
+/// unusable draws in a row (any number) before a usable one -- the result is the first usable draw, never a reserved value
+#[cfg(not(kani))]
+pub fn contract_token_random(bad: usize, sel: usize, good: [u8; 4]) {
+    let bads: [[u8; 4]; 2] = [[0xffu8; 4], [0u8; 4]];
+    let mut calls = 0usize;
+    let tok = Token::random(|b: &mut [u8]| {
+        let v = if calls < bad { bads[(sel >> (calls % 16)) & 1] } else { good };
+        b.copy_from_slice(&v);
+        calls += 1;
+    });
+    assert!(tok != TOKEN_NONE && tok != TOKEN_RESERVED, "Token::random handed out a reserved token");
+    assert!(tok.0 == good && calls == bad + 1, "Token::random did not return the first usable draw");
+}
+
 pub mod proofs {
     use super::draw;
     use super::draw::harness;
@@ -323,5 +338,15 @@ pub mod proofs {
         let hint_sel = draw::usize_le(2);
         draw::reached();
         contract_read_total(data, hint_sel);
+    });
+
+    #[cfg(not(kani))]
+    harness!(sampled_token_random_v6, unwind = 1, {
+        let bad = [0usize, 1, 2, 7, 8, 9, 31, 100][draw::usize_le(7)];
+        let sel = draw::u16() as usize;
+        let mut good = draw::bytes::<4>();
+        if good == [0xff; 4] || good == [0; 4] { good = [1, 2, 3, 4]; }
+        draw::reached();
+        contract_token_random(bad, sel, good);
     });
 }
